@@ -253,4 +253,49 @@ theorem mini_write_read_reachable (v4 : Bool) (ops : List GOp) :
     (fun m h => hin m (hin_of m h)) hlen
   exact ⟨p', hw', hr⟩
 
+/-- **the regular level, for the reachable states**: a write inside the chain of one stream of at least 4096
+bytes leaves the bytes of every other such stream, and every byte of the mini stream — hence every small
+stream — as they were (`chainWrite_read` + single ownership of sectors, `NSH.disjoint`) -/
+theorem chain_write_frame_reachable (v4 : Bool) (ops : List GOp) :
+    let g0 : G := { p := Phys.create v4, L := fun _ => 0 }
+    WritesInRange g0 ops → (grun g0 ops).p.fat.size ≤ MAXREG + 1 →
+    ∀ e1 ∈ (grun g0 ops).p.starts, ∀ e2 ∈ (grun g0 ops).p.starts, e1.2 ≠ e2.2 →
+    CUTOFF ≤ (grun g0 ops).L e1.1 → e1.2 ≠ END → CUTOFF ≤ (grun g0 ops).L e2.1 → e2.2 ≠ END →
+    ∀ l1 l2 lr, IsChain (grun g0 ops).p.fat e1.2 l1 → IsChain (grun g0 ops).p.fat e2.2 l2 →
+    ((grun g0 ops).p.rootStart ≠ END → IsChain (grun g0 ops).p.fat (grun g0 ops).p.rootStart lr) →
+    ((grun g0 ops).p.rootStart = END → lr = []) →
+    ∀ (off : Nat) (bs : Bytes), off + bs.length ≤ l1.length * (grun g0 ops).p.S →
+    ∃ p', chainWrite .zero (bs.length + 2) (grun g0 ops).p l1 off bs = .ok (p', l1) ∧
+      chainRead (bs.length + 2) p' l1 off bs.length [] = .ok bs ∧
+      chainBytes p' l2 = chainBytes (grun g0 ops).p l2 ∧ chainBytes p' lr = chainBytes (grun g0 ops).p lr := by
+  intro g0 hw hb e1 he1 e2 he2 hne hc1 hn1 hc2 hn2 l1 l2 lr c1 c2 cr cr0 off bs hlen
+  have j := regLen_reachable v4 ops hw hb
+  have ns := j.jc.nc.ns
+  have mem_reg : ∀ e ∈ (grun g0 ops).p.starts, CUTOFF ≤ (grun g0 ops).L e.1 → e.2 ≠ END →
+      e.2 ∈ regs (grun g0 ops).p.starts (grun g0 ops).L := by
+    intro e he hc hn
+    unfold regs
+    exact List.mem_map.mpr ⟨e, List.mem_filter.mpr ⟨he, by simp [isRegStart, hc, hn]⟩, rfl⟩
+  have hm1 : e1.2 ∈ heads (grun g0 ops).p (grun g0 ops).L := List.mem_append_right _ (mem_reg e1 he1 hc1 hn1)
+  have hm2 : e2.2 ∈ heads (grun g0 ops).p (grun g0 ops).L := List.mem_append_right _ (mem_reg e2 he2 hc2 hn2)
+  obtain ⟨p', hw', hr, _, hout⟩ := chainWrite_read .zero (grun g0 ops).p l1 off bs j.ss (present_of_isChain j.jc.inv c1)
+    (isChain_nodup c1) hlen
+  refine ⟨p', hw', hr, chainBytes_frame l2 ?_, chainBytes_frame lr ?_⟩
+  · intro id h2
+    apply hout
+    intro h1
+    exact hne (ns.disjoint hm1 hm2 (c1.reach id h1) (c2.reach id h2))
+  · intro id hr'
+    apply hout
+    intro h1
+    by_cases hre : (grun g0 ops).p.rootStart = END
+    · rw [cr0 hre] at hr'; cases hr'
+    · have hrm : (grun g0 ops).p.rootStart ∈ heads (grun g0 ops).p (grun g0 ops).L :=
+        List.mem_append_left _ (rs_mem_cont hre)
+      have hdiff : (grun g0 ops).p.rootStart ≠ e1.2 := by
+        have hnd := ns.nodup
+        unfold heads at hnd
+        exact (List.nodup_append.mp hnd).2.2 _ (rs_mem_cont hre) _ (mem_reg e1 he1 hc1 hn1)
+      exact hdiff (ns.disjoint hrm hm1 ((cr hre).reach id hr') (c1.reach id h1))
+
 end CfbVerif.Phys
